@@ -13,7 +13,7 @@
    and by the correspondence of the extracted writer model with the library.  Proved below: the
    statements do NOT hold for the pinned tree (five witnesses, each a defect with a patch or a
    finding). *)
-From CAres.Wire Require Import Cursor Name Record Parse Escape Escape_proofs RefDecode Name_ref Write Roundtrip Write_proofs Write_name Write_name2.
+From CAres.Wire Require Import Cursor Name Record Parse Escape Escape_proofs RefDecode Name_ref Write Roundtrip Write_proofs Write_name Write_name2 Write_pos.
 From CAres.Gen Require Import Consts.
 Local Open Scope Z_scope.
 
@@ -34,6 +34,26 @@ Theorem C03_name_roundtrip_uncompressed_partial : forall wv base b labels post f
     dns_name_parse fuel c true false = Ok (escape_name labels, set_off c (Z.of_nat (length (w_live b')))).
 Proof. exact name_roundtrip_uncompressed. Qed.
 Print Assumptions C03_name_roundtrip_uncompressed_partial.
+
+(* FRAMES AT ANY BUFFER POSITION (fixed variant), for ALL records and ALL buffers: writing a
+   length-prefixed frame with ares_dns_write_buf_tcp into a buffer that already holds arbitrary
+   octets (earlier frames, a partially sent frame) has exactly the outcome of writing it into an
+   empty buffer - the same status, and exactly the same octets appended behind what was there
+   (on failure nothing is appended).  Together with the round trip of the frame written at
+   position 0 (decided by the oracle) this is C03_frame_any_position.
+   Hypotheses: the buffer is well formed and has no pending back-patch (empty shadow), which holds
+   between frames.  Proof: simulation of the whole writer (all RDATA writers, name compression,
+   RDLENGTH / OPT / RAW_RR / TCP-length back-patching) under a relation between the two buffers. *)
+Theorem C03_frame_position_independent : forall d b,
+  wb_wf b -> w_shadow b = [] ->
+  match write_buf_tcp wfixed d wb_empty, write_buf_tcp wfixed d b with
+  | Ok (s0, b0), Ok (s, b') => s = s0 /\ w_live b' = w_live b ++ w_live b0
+  | Err s0, Err s => s = s0
+  | UB k0, UB k => k = k0
+  | _, _ => False
+  end.
+Proof. exact frame_position_independent. Qed.
+Print Assumptions C03_frame_position_independent.
 
 (* NAME ROUND TRIP under the offset-list invariant of DESIGN.md A.4 (fixed variant: offsets relative
    to the message start, no compression target beyond 16383).  [pre] is whatever the buffer held
